@@ -105,6 +105,18 @@ def fn_breakdown(res):
     return fb
 
 
+def name_match(nm, k):
+    """does breakdown/diagnostic name k denote contract fn nm?  Verus prints nested fns of
+    methods as `impl&%N::method::nested` (no type name)."""
+    if k == nm or k.endswith('::' + nm):
+        return True
+    ks = k.split('::')
+    ns = nm.split('::')
+    if len(ks) == len(ns) and len(ns) >= 3 and ks[0].startswith('impl&%') and ks[1:] == ns[1:]:
+        return True
+    return False
+
+
 def verus_name(meta_path):
     """'character_sets.rs::CharSet::inter' -> name as Verus prints it (sans crate)."""
     p = meta_path.split('::', 1)[1]
@@ -478,7 +490,7 @@ def main(argv):
             if m.get('unit') != u or m['mode'] != 'verify':
                 continue
             nm = verus_name(m['path'])
-            hit = [k for k in fb if k == nm or k.endswith('::' + nm)]
+            hit = [k for k in fb if name_match(nm, k)]
             if not hit:
                 missing.append(nm)
             elif not all(fb[k]['success'] for k in hit):
@@ -533,7 +545,7 @@ def main(argv):
             if m.get('unit') != u:
                 continue
             nm = verus_name(m['path'])
-            hit = [k for k in fb if k == nm or k.endswith('::' + nm)]
+            hit = [k for k in fb if name_match(nm, k)]
             ok = bool(hit) and all(fb[k]['success'] for k in hit)
             ms = sum(fb[k]['time_ms'] for k in hit)
             n_ob = 1 + len([c for c in m['clauses'] if c['kw'] == 'ensures']) + m['n_invariants']
